@@ -390,8 +390,7 @@ def apply(prog, Body):
         if not new_fns:
             continue
         for p in list(table):
-            if p in new_fns:
-                continue            # helpers keep their own bodies as well (rules may still look at them)
+            # (helpers keep their own bodies as well — rules may still look at them — with their own new callees inlined)
             b = table[p]
             new_raw, done = inline_body(raws, known, p, b.raw)
             if done:
